@@ -248,7 +248,7 @@ func TestVerifReplay(t *testing.T) {
 `
 
 // RunReplays compiles the harness package natively and runs the given cases. pkgSub is "" or "wsjson".
-func RunReplays(repo, harnessDir, pkgSub string, cases []ReplayCase, keepDir string) (map[string]*ReplayResult, string, error) {
+func RunReplays(repo, harnessDir, pkgSub string, cases []ReplayCase, keepDir string, excluded []string) (map[string]*ReplayResult, string, error) {
 	if len(cases) == 0 {
 		return map[string]*ReplayResult{}, "", nil
 	}
@@ -307,7 +307,15 @@ func RunReplays(repo, harnessDir, pkgSub string, cases []ReplayCase, keepDir str
 	}
 	replace := map[string]string{}
 	for virt, real := range ov {
-		replace[virt] = real
+		skip := false
+		for _, x := range excluded {
+			if filepath.Base(virt) == x {
+				skip = true
+			}
+		}
+		if !skip {
+			replace[virt] = real
+		}
 	}
 	replace[filepath.Join(pkgDir, "zz_verif_replay_test.go")] = testFile
 	// hide the repository's own test files of that package (faster build, no TestMain leak check)
@@ -403,4 +411,43 @@ func RunReplays(repo, harnessDir, pkgSub string, cases []ReplayCase, keepDir str
 		return res, out.String(), fmt.Errorf("replay build/run failed: %v", runErr)
 	}
 	return res, out.String(), nil
+}
+
+// ReplayStored runs the test file kept in a replay directory against the repository with the harness overlay.
+func ReplayStored(repo, harnessDir, dir string) (string, error) {
+	src, err := os.ReadFile(filepath.Join(dir, "zz_verif_replay_test.go"))
+	if err != nil {
+		return "", err
+	}
+	pkgDir := repo
+	if strings.HasPrefix(string(src), "package wsjson") {
+		pkgDir = filepath.Join(repo, "wsjson")
+	}
+	tmp, err := os.MkdirTemp("", "verif-replay-")
+	if err != nil {
+		return "", err
+	}
+	defer os.RemoveAll(tmp)
+	testFile := filepath.Join(tmp, "zz_verif_replay_test.go")
+	os.WriteFile(testFile, src, 0o644)
+	ov, _ := overlayFiles(repo, harnessDir, false)
+	replace := map[string]string{}
+	for virt, real := range ov {
+		replace[virt] = real
+	}
+	replace[filepath.Join(pkgDir, "zz_verif_replay_test.go")] = testFile
+	ents, _ := os.ReadDir(pkgDir)
+	for _, e := range ents {
+		if strings.HasSuffix(e.Name(), "_test.go") {
+			replace[filepath.Join(pkgDir, e.Name())] = ""
+		}
+	}
+	ovb, _ := json.Marshal(map[string]interface{}{"Replace": replace})
+	ovFile := filepath.Join(tmp, "overlay.json")
+	os.WriteFile(ovFile, ovb, 0o644)
+	cmd := exec.Command("go", "test", "-v", "-vet=off", "-count=1", "-overlay", ovFile, "-run", "^TestVerifReplay$", ".")
+	cmd.Dir = pkgDir
+	cmd.Env = append(os.Environ(), "GOFLAGS=-mod=mod", "GOPROXY=off", "GOSUMDB=off", "GOTOOLCHAIN=local")
+	out, _ := cmd.CombinedOutput()
+	return string(out), nil
 }
